@@ -16,6 +16,7 @@ from puresnmp.adt import (
     V3Flags,
 )
 from puresnmp.credentials import V3, Credentials
+from puresnmp.exc import SnmpError
 from puresnmp.pdu import (
     PDU,
     BulkGetRequest,
@@ -74,7 +75,17 @@ class V3MPM(MessageProcessingModel[V3EncodingResult, TV3SecModel]):
         if self.security_model is None:
             self.security_model = create_sm(security_model_id)
         message = Message.decode(whole_msg)
-        msg = self.security_model.process_incoming_message(message, credentials)
+        try:
+            msg = self.security_model.process_incoming_message(
+                message, credentials
+            )
+        except SnmpError:
+            # The remote engine may have rejected our request because the
+            # cached discovery data is wrong or outdated (unknown engine-id,
+            # not in time window after a reboot, ...). Forget it so that the
+            # next request runs the discovery again instead of failing forever.
+            self.disco = None
+            raise
         return msg.scoped_pdu.data
 
     async def encode(
